@@ -14,7 +14,8 @@ import WcModel.Properties.C01
    * `ci_closed` — a regex all of whose inline flag scopes are case-insensitive cannot
      distinguish subjects that are equal up to ASCII case (every regex, every pair of subjects);
      `ci_pattern_case` — nor the ASCII case of a literal of the pattern.
-     The side condition `allCi` is evaluated per emitted regex by the check (certificate).
+     The side condition `allCi` holds for EVERY pattern string and configuration: `Properties/C17all.lean`
+     (`parse_allCi`, `ci_closed_all`, `ci_pattern_case_all`); the check still evaluates it per pattern (an instance).
    * case-sensitive literal text matches only its exact spelling: `C09.litEq_cs`.
   Not proved (searched through the API): the `/` ~ `\` interchange under FORCEWIN and the
   "FORCEWIN = Unix + IGNORECASE on `\`→`/`" clause; drive / UNC prefixes.
